@@ -42,4 +42,16 @@ theorem Ver_parse_iff (s : List Char) (v : Ver) : Ver.parse s = .ok v ↔
 theorem Ver_parse_total (s : List Char) : (∃ v, Ver.parse s = .ok v) ∨ (∃ e, Ver.parse s = .err e) :=
   _root_.Peppi.Ver.parse_total s
 
+/- from `Peppi.VersionProof` -/
+theorem Ver_gte_patch (v : Ver) (p M m : Nat) : ({ v with patch := p } : Ver).gte M m = v.gte M m :=
+  _root_.Peppi.Ver.gte_patch v p M m
+
+/- from `Peppi.VersionProof` -/
+theorem Ver_lt_patch (v : Ver) (p M m : Nat) : ({ v with patch := p } : Ver).lt M m = v.lt M m :=
+  _root_.Peppi.Ver.lt_patch v p M m
+
+/- from `Peppi.VersionProof` -/
+theorem Ver_gte_or_lt (v : Ver) (M m : Nat) : (v.gte M m = true ∧ v.lt M m = false) ∨ (v.gte M m = false ∧ v.lt M m = true) :=
+  _root_.Peppi.Ver.gte_or_lt v M m
+
 end Peppi.Props.C20
